@@ -3,9 +3,10 @@
 package c06
 
 import (
-	"os"
 	"context"
 	"fmt"
+	"os"
+	"runtime"
 	"sort"
 	"strings"
 	"sync"
@@ -60,6 +61,32 @@ type connSpec struct {
 type scenario struct {
 	conns   []connSpec
 	closeAt int // -1: no Swarm.Close during the schedule
+	// yields[point]: how many times a goroutine reaching that schedule point of the swarm gives
+	// way to the other runnable goroutines (hook under build tag verif). Events scheduled at the
+	// same virtual instant race for real; the yields make the less likely orders likely.
+	yields map[string]int
+}
+
+var yieldPoints = []string{"addConn:registered", "addConn:announced", "close:conns-closing", "doClose:removed"}
+
+// currentYields is the plan of the running case (read by the hook on the swarm's goroutines).
+var currentYields atomic.Pointer[map[string]int]
+
+func init() {
+	swarm.VerifSetYield(func(point string) {
+		if m := currentYields.Load(); m != nil {
+			n := (*m)[point]
+			if n < 0 {
+				// virtual sleep (microseconds): everything else that is due in the meantime runs first.
+				// Only drawn for points at which the goroutine holds no lock.
+				time.Sleep(time.Duration(-n) * time.Microsecond)
+				return
+			}
+			for ; n > 0; n-- {
+				runtime.Gosched()
+			}
+		}
+	})
 }
 
 func drawScenario(rt *rapid.T) *scenario {
@@ -98,6 +125,15 @@ func drawScenario(rt *rapid.T) *scenario {
 	if rapid.IntRange(0, 2).Draw(rt, "swarmClose") == 0 {
 		sc.closeAt = rapid.SampledFrom([]int{0, 1, 2, 3, 5, 8, 12, 25}).Draw(rt, "closeAt")
 	}
+	if rapid.Bool().Draw(rt, "yields?") {
+		sc.yields = map[string]int{}
+		for _, p := range yieldPoints {
+			sc.yields[p] = rapid.SampledFrom([]int{0, 0, 1, 3, 10, 40}).Draw(rt, "yield")
+			if strings.HasPrefix(p, "addConn:") && rapid.Bool().Draw(rt, "sleep?") {
+				sc.yields[p] = -rapid.SampledFrom([]int{1, 1000, 1000, 5000}).Draw(rt, "sleepMicros")
+			}
+		}
+	}
 	return sc
 }
 
@@ -108,6 +144,12 @@ func (sc *scenario) String() string {
 			c.block, c.dblock, c.closeInConnected, c.closeInDisconnected, c.streams)
 	}
 	fmt.Fprintf(&b, "swarmClose=%d", sc.closeAt)
+	if sc.yields != nil {
+		fmt.Fprintf(&b, " yields=")
+		for _, p := range yieldPoints {
+			fmt.Fprintf(&b, "%s:%d,", p, sc.yields[p])
+		}
+	}
 	return b.String()
 }
 
@@ -207,6 +249,13 @@ func runScenario(t *testing.T, rt *rapid.T, name string, sc *scenario) {
 		nontrivial bool
 		labels     = map[string]bool{}
 	)
+	if sc.yields != nil {
+		currentYields.Store(&sc.yields)
+		labels["schedule-points-yielding"] = true
+	} else {
+		currentYields.Store(nil)
+	}
+	defer currentYields.Store(nil)
 	hx.Bubble(t, rt, func() {
 		local := keys.Ed(0)
 		ps, err := pstoremem.NewPeerstore()
@@ -226,6 +275,7 @@ func runScenario(t *testing.T, rt *rapid.T, name string, sc *scenario) {
 		conns := &sync.Map{}
 		byID := &sync.Map{}
 		tconns := make([]*scripted.Conn, len(sc.conns))
+		returned := &sync.Map{} // Conn.ID() -> remote address of every connection DialPeer returned
 		w := scripted.NewWorld()
 		var set *scripted.Set
 		set = scripted.NewSet(w, local.ID, func(addr ma.Multiaddr, p peer.ID, n int) scripted.Script {
@@ -297,7 +347,11 @@ func runScenario(t *testing.T, rt *rapid.T, name string, sc *scenario) {
 					}
 					ctx, cancel := context.WithTimeout(ctx, time.Second)
 					defer cancel()
-					sw.DialPeer(ctx, peerID(sp.peer))
+					// a connection the swarm hands to a caller is an admitted one (a new one or one it
+					// already had): it must be announced like any other
+					if c, err := sw.DialPeer(ctx, peerID(sp.peer)); err == nil && c != nil {
+						returned.Store(c.ID(), c.RemoteMultiaddr().String())
+					}
 				})
 			}
 			if sp.removal != "" {
@@ -398,6 +452,12 @@ func runScenario(t *testing.T, rt *rapid.T, name string, sc *scenario) {
 				}
 			}
 			swarmClosed := closeReturned.Load() != 0
+			returned.Range(func(id, addr any) bool {
+				if !admitted[id.(string)] {
+					fail("DialPeer returned connection %s (%s) without error, but it was never announced with Connected", id, addr)
+				}
+				return true
+			})
 			for id := range admitted {
 				var maxConnExit, minDiscEntry int64 = 0, 1 << 62
 				for n := 0; n < 2; n++ {
